@@ -391,6 +391,17 @@ def _run_case(ck, desc):
                 else:
                     ck.violation(kind, {"accepted": desc["params"], "which": desc.get("which"), "off": desc.get("off"), "through": "relative_permeabilities_twophase"}, desc)
                 EVENTS.clear()
+                # ... and whatever the batch holds: one record, the records of the case, or none at all
+                # (an inadmissible parameter set is inadmissible before any saturation is looked at)
+                full_ = _records(desc["sats"], desc.get("order", 0))
+                for label_, batch_ in (("no records (mask with no hit)", full_[np.zeros(len(full_), dtype=bool)]), ("no records (zero-length array)", np.zeros(0, dtype=full_.dtype)), ("first record only", full_[:1])):
+                    try:
+                        relative_permeabilities(batch_, params)
+                    except Exception as e:  # noqa: BLE001
+                        ck.count(f"rejections.other_batches.{type(e).__name__}")
+                    else:
+                        ck.violation(kind, {"accepted": desc["params"], "which": desc.get("which"), "batch": label_}, desc)
+                EVENTS.clear()
             try:
                 relative_permeabilities(_records(desc["sats"], desc.get("order", 0)), params)
             except Exception as e:  # noqa: BLE001
